@@ -26,7 +26,7 @@ CHECKS = {
 CHECKS["C10"] = dict(
     engine="pbt",
     category="exploration",
-    text="Generated-input search with a vector reference cursor: about a million generated (table, builder options, cursor program) cases per quick run for blocks and real sst files, compared after every cursor call, plus walks, timestamped lookups, metadata and rejected-input injection. The input space (entry sequences x options x programs) is unbounded, so sampling with edge-biased generators is the appropriate level. Added parts: SstMultiBuilder round trip with size roll-over and split hints (concatenation of the output files equals the input, per-file checks, order across files, invalid offers refused at every position incl. first entry of a new file); refused offers leave no trace (byte-wise comparison with a twin built from the accepted entries); keys / values at exactly the maximal sizes through put and del.",
+    text="Generated-input search with a vector reference cursor: about a million generated (table, builder options, cursor program) cases per quick run for blocks and real sst files, compared after every cursor call, plus walks, timestamped lookups, metadata and rejected-input injection. The input space (entry sequences x options x programs) is unbounded, so sampling with edge-biased generators is the appropriate level. Added parts: SstMultiBuilder round trip with size roll-over and split hints (concatenation of the output files equals the input, per-file checks, order across files, invalid offers refused at every position incl. first entry of a new file); refused offers leave no trace (byte-wise comparison with a twin built from the accepted entries); keys / values at exactly the maximal sizes through put and del. The caller's tombstone flag before each load is true or false as a function of the arguments; part boundary-counts sweeps the number of entries through 32 and 4096 restart points (stand-alone block, one-block table, index block of a table with one entry per block).",
     design_ref="DESIGN.md §5 C10",
     note="Reference semantics are the sentinel semantics documented on sst::Cursor; programs start with an absolute seek; (empty key, u64::MAX) is never the first entry.",
     technique="property-based testing (proptest), model-based comparison with a reference cursor after every call",
@@ -85,7 +85,7 @@ CHECKS["C08"] = dict(
 CHECKS["C20"] = dict(
     engine="store-driver",
     category="exploration",
-    text="Safety form of the liveness property over generated states: with small stall / mandatory thresholds and tight compaction limits, whenever the store reports that ingest must stall, compaction steps must lower level 0 below the threshold before the selector goes idle (an idle selector while stalled with nothing in progress is the violation; the step bound is NUM_LEVELS x (live files + 1) + 16 because trivial moves are preferred). 'Eventually' itself is out of reach of this technique. Tree-surface ingests of the step driver run on a helper thread: an ingest that parks on the write stall although the store reports no stall, with the selector idle, is a writer that waits for ever.",
+    text="Safety form of the liveness property over generated states: with small stall / mandatory thresholds and tight compaction limits, whenever the store reports that ingest must stall, compaction steps must lower level 0 below the threshold before the selector goes idle (an idle selector while stalled with nothing in progress is the violation; the step bound is NUM_LEVELS x (live files + 1) + 16 because trivial moves are preferred). 'Eventually' itself is out of reach of this technique. Tree-surface ingests of the step driver run on a helper thread: an ingest that parks on the write stall although the store reports no stall, with the selector idle, is a writer that waits for ever. Part rejected-writes: writers and clients whose batches the store must refuse (oversize key or value through WriteBatch + write) share one store; every client must finish (exact all-parked verdict from /proc task states).",
     design_ref="DESIGN.md §5 C20",
     note="Single-threaded step driving; thread-level lost wake-ups are not decided here.",
     technique="stateful property-based testing with a bounded-relief invariant over generated configurations",
@@ -94,7 +94,7 @@ CHECKS["C20"] = dict(
 CHECKS["C18"] = dict(
     engine="conc",
     category="exploration",
-    text="Four generated-input parts: (1) the LRU cache against a sequential model over generated op sequences with arbitrary sizes and capacities (two admissible recency models where the docs are silent, plus model-independent size invariants and a final drain); (2) the wait list against a single-threaded model of link / unlink-in-any-order / notify across ring wrap-around; (3) the wait list under 2-9 real threads following the two unlink protocols its callers use, including a thread that holds almost all 65 536 slots; (4) the coalescing queue under 2-16 real threads with a harness core that batches always / never / up to n / by input, checking own-output, exactly-once, policy and an entry-order bracket. A stall is declared only by an exact detector (every worker parked in an untimed futex wait with unchanged context-switch counts and no progress); a wall-clock budget only yields 'inconclusive'.",
+    text="Four generated-input parts: (1) the LRU cache against a sequential model over generated op sequences with arbitrary sizes and capacities (two admissible recency models where the docs are silent, plus model-independent size invariants and a final drain); (2) the wait list against a single-threaded model of link / unlink-in-any-order / notify across ring wrap-around; (3) the wait list under 2-9 real threads following the two unlink protocols its callers use, including a thread that holds almost all 65 536 slots; (4) the coalescing queue under 2-16 real threads with a harness core that batches always / never / up to n / by input, checking own-output, exactly-once, policy and an entry-order bracket. A stall is declared only by an exact detector (every worker parked in an untimed futex wait with unchanged context-switch counts and no progress); a wall-clock budget only yields 'inconclusive'. Part coalescing-queue-handoff: batch limit b with exactly b + 1 callers and 40 000 - 60 000 undelayed calls each (the hand-over of the head position between a served caller and the caller behind it, a few hundred thousand times per case).",
     design_ref="DESIGN.md §5 C18",
     note="Thread schedules belong to the OS (perturbed by generated delays and CPU pinning); a violation found is exact, absence is weak evidence. Replays of threaded cases re-run the case up to 50 times.",
     technique="property-based testing: sequential model (LRU, wait list) and generated multi-threaded stress with invariant oracles and an exact all-parked stall detector",
@@ -145,7 +145,7 @@ CHECKS["C04"] = dict(
 CHECKS["C06"] = dict(
     engine="conc-store",
     category="exploration",
-    text="Generated multi-threaded histories (2-4 clients, flush thread, 1-2 compaction threads, tiny memtables, generated perturbation at guard-only yield points) are recorded with invocation/response stamps and decided by an exact linearizability search (Wing-Gong/Lowe with memoisation) under a map model in which a batch is one atomic multi-key write and a scan one atomic range read; held scans are checked as atomic reads at their open time. The OS schedule is not owned, so a violation is exact while absence is weak evidence; that is the strongest level this technique reaches for lock-and-condvar code without rewriting its synchronisation primitives.",
+    text="Generated multi-threaded histories (2-4 clients, flush thread, 1-2 compaction threads, tiny memtables, generated perturbation at guard-only yield points) are recorded with invocation/response stamps and decided by an exact linearizability search (Wing-Gong/Lowe with memoisation) under a map model in which a batch is one atomic multi-key write and a scan one atomic range read; held scans are checked as atomic reads at their open time. The OS schedule is not owned, so a violation is exact while absence is weak evidence; that is the strongest level this technique reaches for lock-and-condvar code without rewriting its synchronisation primitives. Client programs include batches the store must refuse; nothing of them may become visible.",
     design_ref="DESIGN.md §5 C06",
     note="Values are unique per write. Search budget or watchdog expiry marks a case inconclusive. Replays re-run a case 30 times.",
     technique="property-based generation of concurrent programs + exact linearizability checking of the recorded histories",
@@ -154,7 +154,7 @@ CHECKS["C06"] = dict(
 CHECKS["C19"] = dict(
     engine="pbt",
     category="exploration",
-    text="Generated texts (empty, single symbol, all-equal, periodic, de-Bruijn-like, Fibonacci-like, random over alphabets of 1..4000 symbols incl. 0 and u32::MAX and the 254-257 symbol width switch) with generated record boundaries and needle families (substrings incl. across records, mutated, absent, empty, whole text): CompressedDocument and ReferenceDocument are each compared with a naive scan written in the harness for len, records, count, search, lookup, offset_of, retrieve, and again after pack/unpack; every exported BitVector implementation (rrr, cf_rrr, sparse incl. from_indices, reference) is compared with Vec<bool> for access / rank / select at all indices (small vectors) or at structure-size neighbourhoods (up to 50 000 bits), including out-of-range ranks; wavelet trees against a plain symbol vector. Ten further SA + ISA + PSI combinations run the same document queries; alphabets on both sides of 65 536 symbols; every building block (sais, psi constructors, reference and sampled SA / ISA with sampling exponents 0..64) against suffixes sorted in the harness.",
+    text="Generated texts (empty, single symbol, all-equal, periodic, de-Bruijn-like, Fibonacci-like, random over alphabets of 1..4000 symbols incl. 0 and u32::MAX and the 254-257 symbol width switch) with generated record boundaries and needle families (substrings incl. across records, mutated, absent, empty, whole text): CompressedDocument and ReferenceDocument are each compared with a naive scan written in the harness for len, records, count, search, lookup, offset_of, retrieve, and again after pack/unpack; every exported BitVector implementation (rrr, cf_rrr, sparse incl. from_indices, reference) is compared with Vec<bool> for access / rank / select at all indices (small vectors) or at structure-size neighbourhoods (up to 50 000 bits), including out-of-range ranks; wavelet trees against a plain symbol vector. Ten further SA + ISA + PSI combinations run the same document queries; alphabets on both sides of 65 536 symbols; every building block (sais, psi constructors, reference and sampled SA / ISA with sampling exponents 0..64) against suffixes sorted in the harness. Part document-skewed-contexts: one context preceded by 18-22 symbols with Fibonacci multiplicities (Huffman codes of up to 21 bits).",
     design_ref="DESIGN.md §5 C19",
     note="Where the documentation is silent and both implementations agree, their common behaviour is adopted (recorded as assumptions in the evidence). More than 65 535 distinct symbols and texts of 2^32 symbols are out of reach.",
     technique="property-based testing (proptest) with a naive-scan reference model and a two-implementation differential",
@@ -163,7 +163,7 @@ CHECKS["C19"] = dict(
 CHECKS["C17"] = dict(
     engine="token-sched",
     category="exploration",
-    text="Main part: a deterministic token scheduler runs 2-4 real threads of which exactly one holds the token; at every guard-only yield point (each atomic pointer load, store and CAS of skipfree / listfree) the next element of a proptest-generated schedule decides who runs next, tower heights come from the case, and an exact log gives, for every observation, the inserts completed before it began and started before it ended. Oracles: iterations strictly increasing with completed-before ⊆ seen ⊆ started-before; contains; seek/next/prev land on the nearest admissible key; final forward/backward iteration equals the inserted set; iterators held while the last list handle is dropped stay valid (allocation registry); prepend list: each element once, newest first, consistent with the CAS order. A real-thread stress part (2-8 writers x up to 10^4 keys, 1-4 readers) covers hardware memory ordering on this x86-64 machine.",
+    text="Main part: a deterministic token scheduler runs 2-4 real threads of which exactly one holds the token; at every guard-only yield point (each atomic pointer load, store and CAS of skipfree / listfree) the next element of a proptest-generated schedule decides who runs next, tower heights come from the case, and an exact log gives, for every observation, the inserts completed before it began and started before it ended. Oracles: iterations strictly increasing with completed-before ⊆ seen ⊆ started-before; contains; seek/next/prev land on the nearest admissible key; final forward/backward iteration equals the inserted set; iterators held while the last list handle is dropped stay valid (allocation registry); prepend list: each element once, newest first, consistent with the CAS order. A real-thread stress part (2-8 writers x up to 10^4 keys, 1-4 readers) covers hardware memory ordering on this x86-64 machine. The stress readers end every forward iteration with one prev() on the same iterator: it must reach the greatest key whose insert had returned.",
     design_ref="DESIGN.md §5 C17",
     note="Token scheduling yields sequentially consistent executions at hook granularity only; orderings weaker than x86-TSO are out of reach. At most 4 threads x 6 inserts per scheduled case.",
     technique="property-based testing over generated (workload, schedule) pairs with a deterministic cooperative scheduler, plus generated multi-threaded stress",
